@@ -110,8 +110,11 @@ Section Direct.
     assert (no_self st1) as H1 by (unfold no_self; rewrite Ho; exact Hinv).
     destruct (node_publish_worker _ _ _ _ _ _ _ Hp E2) as [[-> ->]|[-> [-> [Hne _]]]].
     - injection H as <- _. unfold no_self, discard_port. simpl. exact H1.
-    - injection H as <- _. intros m i n q Hin. apply add_sub_in in Hin.
-      destruct Hin as [Hin|[Hk Hx]]; [eapply H1; exact Hin|]. injection Hk as -> ->. injection Hx as -> ->. simpl in Hne. auto.
+    - assert (G : no_self (add_sub st1 pn pidx (subscriber, p))).
+      { intros m i n q Hin. apply add_sub_in in Hin.
+        destruct Hin as [Hin|[Hk Hx]]; [eapply H1; exact Hin|]. injection Hk as -> ->. injection Hx as -> ->. simpl in Hne. auto. }
+      match type of H with (if ?c then _ else _, _) = _ => destruct c end; injection H as <- _; [exact G|].
+      unfold no_self, discard_port. simpl. exact G.
   Qed.
 
   Lemma step_no_self st o st' ok :
